@@ -137,6 +137,10 @@ fn main() {
             eprintln!("shared: {} threads x {} calls in {:?}", n, lines.len(), start.elapsed());
         }
         // C18: drop an on-disk tree and re-create it on the same location at once, n times; prints the slowest re-open
+        Some("probe_load") => {
+            let n: usize = args[2].parse().unwrap();
+            println!("{}", treeops::probe_load(n));
+        }
         Some("reopen_loop") => {
             let n: usize = args[2].parse().unwrap();
             println!("{}", treeops::reopen_loop(n));
